@@ -140,8 +140,30 @@ static unsigned char *bufpool = NULL;
 static size_t bufpos = 0;
 #define BUFPOOL (1 << 22)
 static unsigned misalign = 0;
+static int guard_mode = 0;          /* 0: pool; 1: buffer ends at a PROT_NONE page; 2: buffer starts right after one */
+static struct { void *p; size_t len; } gmaps[16];
+static int ngmaps = 0;
+static void gfree_all(void)
+{
+    for (int i = 0; i < ngmaps; ++i) munmap(gmaps[i].p, gmaps[i].len);
+    ngmaps = 0;
+}
+static unsigned char *galloc(size_t n)
+{
+    size_t pg = 4096, body = (n + pg - 1) / pg * pg;
+    if (!body) body = pg;
+    size_t len = body + 2 * pg;
+    unsigned char *m = mmap(NULL, len, PROT_READ | PROT_WRITE, MAP_PRIVATE | MAP_ANONYMOUS, -1, 0);
+    if (m == MAP_FAILED || ngmaps >= 16) { fprintf(stderr, "guard alloc failed\n"); exit(3); }
+    memset(m, 0xEE, len);
+    mprotect(m, pg, PROT_NONE);
+    mprotect(m + pg + body, pg, PROT_NONE);
+    gmaps[ngmaps].p = m; gmaps[ngmaps].len = len; ngmaps++;
+    return guard_mode == 1 ? m + pg + body - n : m + pg;
+}
 static unsigned char *balloc(size_t n)
 {
+    if (guard_mode) return galloc(n);
     bufpos = (bufpos + 63) & ~(size_t)63;
     bufpos += misalign & 31;
     unsigned char *p = bufpool + bufpos;
@@ -153,7 +175,7 @@ static unsigned char *parsehex(const char *tok, size_t *len, int *isnull)
 {
     *isnull = 0; *len = 0;
     if (!strcmp(tok, "NULL")) { *isnull = 1; return NULL; }
-    if (!strcmp(tok, "-")) return balloc(1);
+    if (!strcmp(tok, "-")) return balloc(guard_mode ? 0 : 1);
     size_t n = strlen(tok) / 2;
     unsigned char *p = balloc(n);
     for (size_t i = 0; i < n; ++i) p[i] = (unsigned char)((hexval(tok[2 * i]) << 4) | hexval(tok[2 * i + 1]));
@@ -194,6 +216,7 @@ static int probe(Op *op)
 
 /* ------------------------------------------------------------------ operations */
 static int probes128 = 1, probes256 = 1;
+static int overlap_delta = 99;
 
 static void setcap(void)
 {
@@ -210,9 +233,12 @@ static int exec_op(Op *op, int real)
     size_t len, len2; int isnull, isnull2;
     (void)real;
     bufpos = 0;
+    gfree_all();
     if (IS("cfg") || IS("sizes")) { printf("ok\n"); return 0; }
     if (IS("probes") && argc == 3) { probes128 = atoi(ARG(1)); probes256 = atoi(ARG(2)); setcap(); printf("ok\n"); return 0; }
     if (IS("junk") && argc == 2) { junk = (unsigned char)atoi(ARG(1)); printf("ok\n"); return 0; }
+    if (IS("guard") && argc == 2) { guard_mode = atoi(ARG(1)); printf("ok\n"); return 0; }
+    if (IS("overlap") && argc == 2) { overlap_delta = atoi(ARG(1)); printf("ok\n"); return 0; }
     if (IS("align") && argc == 2) { misalign = (unsigned)atoi(ARG(1)); printf("ok\n"); return 0; }
     if (IS("failat") && argc == 2) { fail_at = strcmp(ARG(1), "none") ? alloc_count + atol(ARG(1)) : -1; printf("ok\n"); return 0; }
     if (IS("heap")) { printf("live=%d events=%s\n", live_count, evlog); evlen = 0; evlog[0] = 0; return 0; }
@@ -242,8 +268,13 @@ static int exec_op(Op *op, int real)
     if (argc == 3 && (IS("s128.enc") || IS("s128.dec") || IS("s128.tenc") || IS("s128.tdec") ||
                       IS("s64.enc") || IS("s64.dec") || IS("s64.tenc") || IS("s64.tdec") || IS("mantis.crypt"))) {
         unsigned char *d = parsehex(ARG(2), &len, &isnull);
-        unsigned char *out = balloc(16);
-        size_t bs = 16;
+        size_t bs = (ARG(0)[1] == '1') ? 16 : 8;
+        unsigned char *out = balloc(bs);
+        if (overlap_delta != 99) {
+            /* overlapping input and output: input at w+16, output at w+16+delta */
+            unsigned char *w = balloc(64);
+            memcpy(w + 16, d, bs); d = w + 16; out = w + 16 + overlap_delta;
+        }
         if (IS("s128.enc")) { Skinny128Key_t *k = objptr(ARG(1), K128); if (k == (void *)-1) goto bad; skinny128_ecb_encrypt(out, d, k); }
         else if (IS("s128.dec")) { Skinny128Key_t *k = objptr(ARG(1), K128); if (k == (void *)-1) goto bad; skinny128_ecb_decrypt(out, d, k); }
         else if (IS("s128.tenc")) { Skinny128TweakedKey_t *k = objptr(ARG(1), T128); if (k == (void *)-1) goto bad; skinny128_ecb_encrypt(out, d, &k->ks); }
@@ -253,6 +284,7 @@ static int exec_op(Op *op, int real)
         else if (IS("s64.tenc")) { Skinny64TweakedKey_t *k = objptr(ARG(1), T64); if (k == (void *)-1) goto bad; skinny64_ecb_encrypt(out, d, &k->ks); bs = 8; }
         else if (IS("s64.tdec")) { Skinny64TweakedKey_t *k = objptr(ARG(1), T64); if (k == (void *)-1) goto bad; skinny64_ecb_decrypt(out, d, &k->ks); bs = 8; }
         else { MantisKey_t *k = objptr(ARG(1), MK); if (k == (void *)-1) goto bad; mantis_ecb_crypt(out, d, k); bs = 8; }
+        if (overlap_delta != 99) { unsigned char tmp[16]; memcpy(tmp, out, bs); puthex(tmp, bs); putchar('\n'); return 0; }
         puthex(out, bs); putchar('\n');
         return 0;
     }
@@ -345,7 +377,7 @@ static int exec_op(Op *op, int real)
         }
         if ((!strcmp(fn, "encrypt") || !strcmp(fn, "decrypt")) && argc == 3 && f != 5) {
             unsigned char *d = parsehex(ARG(2), &len, &isnull);
-            unsigned char *out = isnull ? NULL : balloc(len + 1);
+            unsigned char *out = isnull ? NULL : balloc(guard_mode ? len : len + 1);
             int inplace = 0;
             int r;
             if (!isnull && getenv("CDRV_INPLACE")) { out = d; inplace = 1; }
@@ -367,7 +399,7 @@ static int exec_op(Op *op, int real)
         if (!strcmp(fn, "crypt") && argc == 4 && f == 5) {
             unsigned char *t = parsehex(ARG(2), &len2, &isnull2);
             unsigned char *d = parsehex(ARG(3), &len, &isnull);
-            unsigned char *out = balloc(len + 1);
+            unsigned char *out = balloc(guard_mode ? len : len + 1);
             if (getenv("CDRV_INPLACE")) out = d;
             int r = mantis_parallel_ecb_crypt(out, d, t, len, h ? &h->mp : NULL);
             printf("ret=%d out=", r);
